@@ -919,3 +919,156 @@ def groupby_needs_sorted(prog, rep, rule, modules=None):
                 f"`{short(c, 70)}`: groupby merges only adjacent items, and `{unparse(c.args[0]) if c.args else '?'}` is not sorted by that key - "
                 "members of one group that are not next to each other are treated as different groups")
     return n
+
+
+
+# ---- partial evaluation of a dispatch on a string-valued variable ------------------------------
+OPERATOR_FUNCS = {"add": ast.Add, "sub": ast.Sub, "mul": ast.Mult, "truediv": ast.Div, "pow": ast.Pow, "matmul": ast.MatMult, "or_": ast.BitOr,
+                  "floordiv": ast.FloorDiv, "mod": ast.Mod, "and_": ast.BitAnd, "xor": ast.BitXor}
+
+
+def const_table(prog, f, node):
+    """{key: value node} of a dict display with string keys that `node` denotes from inside f: a module-level name bound once,
+    or self.X / cls.X / ClassName.X for a class attribute; None if it is not such a table or if anything writes to it"""
+    name = None
+    d = None
+    if isinstance(node, ast.Name):
+        kind, q = prog.resolve(f.module, node.id)
+        if kind == "var":
+            mod, g = q.rsplit(".", 1)
+            vals = prog.modules[mod].globals.get(g, [])
+            if len(vals) == 1 and isinstance(vals[0], ast.Dict):
+                d, name = vals[0], g
+    elif isinstance(node, ast.Attribute) and isinstance(node.value, ast.Name):
+        cls = None
+        if node.value.id in ("self", "cls") and f.cls is not None:
+            cls = f.cls
+        else:
+            kind, q = prog.resolve(f.module, node.value.id)
+            if kind == "class":
+                cls = prog.classes.get(q)
+        if cls is not None and isinstance(cls.class_attrs.get(node.attr), ast.Dict):
+            d, name = cls.class_attrs[node.attr], node.attr
+    if d is None or not all(k is not None and is_str_const(k) for k in d.keys):
+        return None
+    for fn in prog.functions.values():
+        for n in ast.walk(fn.node):
+            tgt = None
+            if isinstance(n, ast.Subscript) and isinstance(n.ctx, (ast.Store, ast.Del)):
+                tgt = n.value
+            if isinstance(n, ast.Call) and isinstance(n.func, ast.Attribute) and n.func.attr in ("update", "pop", "setdefault", "clear", "popitem", "__setitem__"):
+                tgt = n.func.value
+            if tgt is not None and ((isinstance(tgt, ast.Name) and tgt.id == name) or (isinstance(tgt, ast.Attribute) and tgt.attr == name)):
+                return None
+    return {k.value: v for k, v in zip(d.keys, d.values)}
+
+
+def specialise(prog, f, var, value, operator_calls=False):
+    """Partial evaluation of f's body for `var == value` (a string): ('return', expression with locals expanded, stmt),
+    ('raise', stmt) or ('falloff',).  Tests on `var` are decided: ==, !=, in / not in a literal container or a constant
+    table; TABLE[var] / TABLE.get(var) become the table's entry (or None); `x is None` is decided on expanded values;
+    with operator_calls, operator.add(a, b) becomes a + b."""
+    import copy
+
+    env = {}
+    NONE = ast.Constant(value=None)
+
+    def table_entry(tnode, default=None):
+        t = const_table(prog, f, tnode)
+        if t is None:
+            return None
+        if value in t:
+            return copy.deepcopy(t[value])
+        return default
+
+    def expand(e):
+        e = copy.deepcopy(e)
+
+        class T(ast.NodeTransformer):
+            def visit_Name(s_, n):
+                if isinstance(n.ctx, ast.Load) and n.id in env:
+                    return copy.deepcopy(env[n.id])
+                return n
+
+            def visit_Subscript(s_, n):
+                s_.generic_visit(n)
+                if (isinstance(n.slice, ast.Constant) and n.slice.value == value) or (isinstance(n.slice, ast.Name) and n.slice.id == var):
+                    ent = table_entry(n.value)
+                    if ent is not None:
+                        return ent
+                return n
+
+            def visit_Call(s_, n):
+                if isinstance(n.func, ast.Attribute) and n.func.attr == "get" and 1 <= len(n.args) <= 2 and not n.keywords \
+                        and ((isinstance(n.args[0], ast.Name) and n.args[0].id == var) or (isinstance(n.args[0], ast.Constant) and n.args[0].value == value)):
+                    if const_table(prog, f, n.func.value) is not None:
+                        default = s_.visit(copy.deepcopy(n.args[1])) if len(n.args) == 2 else copy.deepcopy(NONE)
+                        return table_entry(n.func.value, default)
+                s_.generic_visit(n)
+                d = dotted(n.func) or ""
+                if operator_calls and d.startswith("operator.") and d.split(".")[1] in OPERATOR_FUNCS and len(n.args) == 2 and not n.keywords:
+                    return ast.copy_location(ast.BinOp(left=n.args[0], op=OPERATOR_FUNCS[d.split(".")[1]](), right=n.args[1]), n)
+                return n
+
+        return T().visit(e)
+
+    base = option_decider(prog, f, var, value)
+
+    def members_of_table(c):
+        t = const_table(prog, f, c)
+        return None if t is None else set(t)
+
+    def decide(t):
+        r = base(t)
+        if r is not None:
+            return r
+        if isinstance(t, ast.UnaryOp) and isinstance(t.op, ast.Not):
+            r = decide(t.operand)
+            return None if r is None else not r
+        if isinstance(t, ast.BoolOp):
+            rs = [decide(v) for v in t.values]
+            if any(x is None for x in rs):
+                return None
+            return all(rs) if isinstance(t.op, ast.And) else any(rs)
+        if isinstance(t, ast.Compare) and len(t.ops) == 1:
+            op, left, right = t.ops[0], t.left, t.comparators[0]
+            if isinstance(op, (ast.In, ast.NotIn)) and isinstance(left, ast.Name) and left.id == var:
+                m = members_of_table(right)
+                if m is not None:
+                    return (value in m) == isinstance(op, ast.In)
+            if isinstance(op, (ast.Is, ast.IsNot)) and isinstance(right, ast.Constant) and right.value is None:
+                v = expand(left)
+                if isinstance(v, ast.Constant) and v.value is None:
+                    return isinstance(op, ast.Is)
+                if isinstance(v, (ast.Attribute, ast.Name, ast.Lambda)) and unparse(v) != unparse(left):
+                    # expanded to a table entry (a function object): not None
+                    return isinstance(op, ast.IsNot)
+        return None
+
+    def run(stmts):
+        for st in stmts:
+            if isinstance(st, ast.Expr) and isinstance(st.value, ast.Constant):
+                continue
+            if isinstance(st, ast.Assign) and len(st.targets) == 1 and isinstance(st.targets[0], ast.Name):
+                if st.targets[0].id == var:
+                    continue
+                env[st.targets[0].id] = expand(st.value)
+                continue
+            if isinstance(st, ast.If):
+                r = decide(st.test)
+                if r is None:
+                    raise AnalysisError(f"{f.qual}: cannot decide `{unparse(st.test)}` for {var} == {value!r}")
+                out = run(st.body if r else st.orelse)
+                if out is not None:
+                    return out
+                continue
+            if isinstance(st, ast.Return):
+                return ("return", expand(st.value) if st.value is not None else ast.Constant(value=None), st)
+            if isinstance(st, ast.Raise):
+                return ("raise", st)
+            if isinstance(st, ast.Pass):
+                continue
+            raise AnalysisError(f"{f.qual}: unmodelled statement `{short(st)}` in the operator dispatch")
+        return None
+
+    return run(f.body) or ("falloff",)
